@@ -70,7 +70,15 @@ func run(raw json.RawMessage) (common.Case, error) {
 	for _, i := range res.Order {
 		nresp = append(nresp, res.Responses[i])
 	}
-	c.Coq = common.App("CAck", common.Z(int64(in.RF)), common.Z(int64(in.Replica)), common.List(place), common.List(writes),
+	var hung []string
+	for _, i := range res.HungWrites {
+		hung = append(hung, common.Pair(common.Nat(in.Writes[i].Node), common.Nat(in.Writes[i].Rep)))
+		if res.Responses[i] != 0 && c.GoPred == "" {
+			c.GoPred = fmt.Sprintf("a peer that never answered is recorded with %d responses", res.Responses[i])
+			c.Sig = "response-from-hung-peer"
+		}
+	}
+	c.Coq = common.App("CAck", common.Z(int64(in.RF)), common.Z(int64(in.Replica)), common.List(place), common.List(writes), common.List(hung),
 		common.List(ids), natList(nresp), common.Z(int64(res.Status)), common.Nat(res.DeliveredAtReturn))
 	c.Obs = res
 	c.Class = fmt.Sprintf("rf%d/series%d", in.RF, len(in.Place))
@@ -98,6 +106,9 @@ func run(raw json.RawMessage) (common.Case, error) {
 		}
 	}
 	for i, n := range res.Responses {
+		if in.Writes[i].Kind == "hang" {
+			continue
+		}
 		if n != 1 && c.GoPred == "" {
 			c.GoPred = fmt.Sprintf("write (node %d, replica %d) produced %d responses, want exactly one", in.Writes[i].Node, in.Writes[i].Rep, n)
 			c.Sig = "not-one-response"
@@ -105,6 +116,9 @@ func run(raw json.RawMessage) (common.Case, error) {
 	}
 	if in.Workers > 0 {
 		c.Class = "saturated-pool/" + c.Class
+	}
+	if len(res.HungWrites) > 0 {
+		c.Class = "hung-peers/" + c.Class
 	}
 	if res.Hung {
 		c.GoPred = "the request was never answered although every forwarded write had responded (response channel never closed?)"
@@ -129,6 +143,16 @@ func writesFor(in *ru.FanoutInput) []ru.Write {
 		}
 	}
 	return ws
+}
+
+// hung-peer schedules that are always run
+var hangFixed = []ru.FanoutInput{
+	{RF: 3, Place: [][]int{{0, 1, 2}}, Writes: []ru.Write{{Node: 0, Rep: 0, Kind: "ok"}, {Node: 1, Rep: 1, Kind: "hang"}, {Node: 2, Rep: 2, Kind: "hang"}}},
+	{RF: 3, Place: [][]int{{0, 1, 2}}, Writes: []ru.Write{{Node: 0, Rep: 0, Kind: "hang"}, {Node: 1, Rep: 1, Kind: "hang"}, {Node: 2, Rep: 2, Kind: "hang"}}},
+	{RF: 3, Place: [][]int{{0, 1, 2}}, Writes: []ru.Write{{Node: 0, Rep: 0, Kind: "ok"}, {Node: 1, Rep: 1, Kind: "ok"}, {Node: 2, Rep: 2, Kind: "hang"}}},
+	{RF: 1, Place: [][]int{{0}}, Writes: []ru.Write{{Node: 0, Rep: 0, Kind: "hang"}}},
+	{RF: 2, Place: [][]int{{0, 1}, {1, 0}}, Writes: []ru.Write{{Node: 0, Rep: 0, Kind: "ok"}, {Node: 1, Rep: 1, Kind: "hang"}, {Node: 1, Rep: 0, Kind: "hang"}, {Node: 0, Rep: 1, Kind: "conflict"}}},
+	{RF: 5, Place: [][]int{{0, 1, 2, 3, 4}}, Writes: []ru.Write{{Node: 0, Rep: 0, Kind: "ok"}, {Node: 1, Rep: 1, Kind: "conflict"}, {Node: 2, Rep: 2, Kind: "ok"}, {Node: 3, Rep: 3, Kind: "hang"}, {Node: 4, Rep: 4, Kind: "hang"}}},
 }
 
 func gen(r *rand.Rand, tier string, n int) []any {
@@ -200,6 +224,44 @@ func gen(r *rand.Rand, tier string, n int) []any {
 			}
 		}
 		in.Writes = ws
+		out = append(out, in)
+	}
+	// hung peers: some replicas never answer, so the forward timeout (ctx.Done)
+	// ends the response loop unless the answered ones already decide every series
+	nh := n / 12
+	if tier == "thorough" {
+		nh = n / 40
+	}
+	for i := 0; i < nh+len(hangFixed); i++ {
+		var in ru.FanoutInput
+		if i < len(hangFixed) {
+			in = hangFixed[i]
+		} else {
+			rf := 1 + r.Intn(5)
+			in = ru.FanoutInput{RF: rf}
+			nodes := rf + r.Intn(2)
+			for s := 0; s < 1+r.Intn(3); s++ {
+				in.Place = append(in.Place, r.Perm(nodes)[:rf])
+			}
+			ws := writesFor(&in)
+			r.Shuffle(len(ws), func(a, b int) { ws[a], ws[b] = ws[b], ws[a] })
+			ph := 20 + r.Intn(60)
+			any := false
+			for j := range ws {
+				switch x := r.Intn(100); {
+				case x < ph:
+					ws[j].Kind, any = "hang", true
+				case x < ph+(100-ph)*2/3:
+					ws[j].Kind = "ok"
+				default:
+					ws[j].Kind = common.Pick(r, "conflict", "unavail", "other")
+				}
+			}
+			if !any {
+				ws[r.Intn(len(ws))].Kind = "hang"
+			}
+			in.Writes = ws
+		}
 		out = append(out, in)
 	}
 	// saturated worker pools: few nodes, several replicas of different series on
